@@ -194,7 +194,35 @@ func (f *Frame) stmt(st *State, s ast.Stmt) *State {
 	case *ast.GoStmt:
 		f.fail(s, "go statement outside the verified subset")
 	case *ast.SelectStmt:
-		f.fail(s, "select outside the verified subset")
+		// restricted form: every clause is `default` or a bare receive `case <-ch:` whose value is discarded. There
+		// are no goroutines in the subset, so which clause fires is an arbitrary choice (a fresh selector); the
+		// channel operands are not evaluated.
+		var out *State
+		sel := c.fresh("select", SInt)
+		c.assume(st, Ge(sel, IntLit(0)))
+		n := len(s.Body.List)
+		for i, cl := range s.Body.List {
+			cc := cl.(*ast.CommClause)
+			if cc.Comm != nil {
+				es, ok := cc.Comm.(*ast.ExprStmt)
+				if !ok {
+					f.fail(s, "select clause with assignment or send outside the verified subset")
+				}
+				if u, ok := es.X.(*ast.UnaryExpr); !ok || u.Op != token.ARROW {
+					f.fail(s, "select clause outside the verified subset")
+				}
+			}
+			si := st.clone()
+			if i == n-1 {
+				c.assumeBranch(si, Ge(sel, IntLit(int64(i))))
+			} else {
+				c.assumeBranch(si, Eq(sel, IntLit(int64(i))))
+			}
+			ri := f.block(si, cc.Body)
+			out = c.merge(out, ri)
+		}
+		c.note("select statement modelled as an arbitrary choice between its clauses")
+		return out
 	case *ast.SendStmt:
 		f.fail(s, "channel send outside the verified subset")
 	}
